@@ -155,7 +155,7 @@ pub fn ver_overlap(rng: &mut Rng, enc: Enc, total: usize, variant: u64) -> VerCa
     let mut verdef = vec![0u8; total];
     let (mut need_count, mut def_count) = (0xffff_ffffu64, 0xffff_ffffu64);
     let mut what = String::new();
-    match variant % 7 {
+    match variant % 8 {
         0 | 1 => {
             // the n^2 shape: the first half holds back-to-back top records (count 0xffff each), every
             // one of which points into the second half, which is filled with the 32-bit word `aux_stride`:
@@ -215,6 +215,38 @@ pub fn ver_overlap(rng: &mut Rng, enc: Enc, total: usize, variant: u64) -> VerCa
             Rec::zero(St::Verdef, enc.c64).with("vd_version", 1).with("vd_cnt", 1).with("vd_aux", 20).with("vd_next", 20).bytes(enc).iter().enumerate().for_each(|(i, b)| verdef[i] = *b);
             Rec::zero(St::Verdef, enc.c64).with("vd_version", 1).with("vd_cnt", 2).with("vd_aux", a2).with("vd_next", n2).bytes(enc).iter().enumerate().for_each(|(i, b)| verdef[20 + i] = *b);
             what = format!("second record has next={n2:#x}, aux={a2:#x} (offset + next overflows a 32-bit usize)");
+        }
+        6 => {
+            // small declared counts over chains that go on: top records with cnt 0..3 (and any vd_ndx / vn_file) whose
+            // aux chains never end, in a top chain longer than the declared number of records
+            let aux_stride: u64 = 4 * (1 + rng.below(3));
+            let half = (total / 2) & !3;
+            for (buf, top, next_f, aux_f, cnt_f, ver_f, size) in [
+                (&mut verneed, St::Verneed, "vn_next", "vn_aux", "vn_cnt", "vn_version", 16usize),
+                (&mut verdef, St::Verdef, "vd_next", "vd_aux", "vd_cnt", "vd_version", 20usize),
+            ] {
+                let mut off = half;
+                while off + 4 <= total {
+                    enc.put_at(buf, off, aux_stride, 4);
+                    off += 4;
+                }
+                let mut off = 0usize;
+                while off + size <= half {
+                    let mut r = Rec::zero(top, enc.c64).with(ver_f, 1).with(cnt_f, rng.below(4)).with(aux_f, (half - off) as u64).with(next_f, size as u64);
+                    if top == St::Verdef {
+                        r.set("vd_ndx", *rng.pick(&[1u64, 2, 5, 9, 0x7fff, 0xffff]));
+                        r.set("vd_flags", rng.below(4));
+                    } else {
+                        r.set("vn_file", *rng.pick(&[1u64, 5, 9, 0xffff]));
+                    }
+                    let b = r.bytes(enc);
+                    buf[off..off + size].copy_from_slice(&b);
+                    off += size;
+                }
+            }
+            need_count = rng.below(4);
+            def_count = rng.below(4);
+            what = format!("top records with cnt 0..3 over endless aux chains (stride {aux_stride}); declared counts {need_count} / {def_count} over {} chained records", half / 20);
         }
         _ => {
             rng.fill(&mut verneed);
